@@ -162,6 +162,10 @@ func (w *world) writtenValues(fn *ssa.Function) []ssa.Value {
 		if isSinkPrimitive(call) {
 			if v := sinkValueOperand(call); v != nil {
 				out = append(out, stripConv(v))
+				// a component of a vector: the vector counts as written too
+				if r, _, ok := componentOf(v); ok {
+					out = append(out, stripConv(r))
+				}
 			}
 			return
 		}
@@ -341,7 +345,12 @@ func (w *world) ruleSrc(a *agg) {
 			continue
 		}
 		written := w.writtenValues(fn)
+		done := map[ssa.Value]bool{}
 		for _, wv := range written {
+			if done[wv] {
+				continue
+			}
+			done[wv] = true
 			call, ok := wv.(*ssa.Call)
 			if !ok {
 				// component of an element: v.X() handled through the raw writers; direct At inside a conversion
@@ -413,5 +422,5 @@ func (w *world) ruleSrc(a *agg) {
 			}
 		}
 	}
-	w.c.R.Floor("SRC-1", 4)
+	w.c.R.Floor("SRC-1", 3)
 }
